@@ -284,11 +284,12 @@ def fragment_correspondence(ctx: fw.Ctx):
         reqs.append(["pieces", sx])
         reqs.append(["flatten", sx])
         reqs.append(["facts", sx])
+        reqs.append(["norm", sx])
     replies = ctx.driver.ask_many(reqs)
     bad = 0
     hyp = {"inputs": 0, "orderOk": 0, "beforeFlatB": 0, "safe": 0, "spacing_nf": 0, "tokens": 0}
     for k, (origin, text, tree) in enumerate(texts):
-        got, pieces, flat, facts = replies[4 * k], replies[4 * k + 1], replies[4 * k + 2], replies[4 * k + 3]
+        got, pieces, flat, facts, norm = (replies[5 * k + n] for n in range(5))
         if facts and facts[0] == "ok":
             # the decidable hypotheses / conclusions of the fragment theorems on this input, evaluated by
             # the compiled model: C01.frag_tokens_preserved and frag_safe have no exclusion, C18.frag_spacing_nf
@@ -332,6 +333,20 @@ def fragment_correspondence(ctx: fw.Ctx):
         out = fw.unhx(got[1])
         if origin == "output" and out == text:
             cov["output_fixed_points"] += 1
+        if norm and norm[0] == "ok":
+            # comment-free input: C06.frag_fixed_point_comment_free names the tree of the output, `File.norm f`.
+            # Its text must be the output and it must be, node by node, the tree tree-sitter returns for the
+            # output (the parser-contract step of the theorem).
+            cov["comment_free"] = cov.get("comment_free", 0) + 1
+            try:
+                real_tree = cstdump.sexp(cstdump.dump(out))
+            except (cstdump.OutsideFragment, cstdump.ContractBroken) as exc:
+                real_tree = ["<" + type(exc).__name__ + ">", str(exc)]
+            if fw.unhx(norm[1]) != out or norm[2] != real_tree:
+                bad += 1
+                if bad <= 5:
+                    ctx.tie_break("parser-contract", "File.norm f is not the tree tree-sitter returns for the output",
+                                  request={"text": text}, implementation=real_tree, model=norm[2])
         if not pieces or pieces[0] != "ok":
             bad += 1
             if bad <= 5:
